@@ -30,6 +30,15 @@ func findNamespaceConfig(config *model.ClusterConfig, ns string) *model.Namespac
 	return nil
 }
 
+func allShardsDeleting(nss model.NamespaceStatus) bool {
+	for _, shard := range nss.Shards {
+		if shard.Status != model.ShardStatusDeleting {
+			return false
+		}
+	}
+	return true
+}
+
 func ApplyClusterChanges(config *model.ClusterConfig, currentStatus *model.ClusterStatus, ensembleSupplier func(namespaceConfig *model.NamespaceConfig, status *model.ClusterStatus) ([]model.Server, error)) (
 	newStatus *model.ClusterStatus,
 	shardsToAdd map[int64]string,
@@ -50,11 +59,14 @@ func ApplyClusterChanges(config *model.ClusterConfig, currentStatus *model.Clust
 	// Check for new namespaces
 	for _, nc := range config.Namespaces {
 		nss, existing := currentStatus.Namespaces[nc.Name]
-		if existing {
+		if existing && !allShardsDeleting(nss) {
 			continue
 		}
 
-		// This is a new namespace
+		// This is a new namespace, or one that was re-added while its old shards are
+		// still being deleted: those stay in the status (they are not published and are
+		// removed one by one) next to the new shards.
+		old := nss
 		nss = model.NamespaceStatus{
 			Shards:            map[int64]model.ShardMetadata{},
 			ReplicationFactor: nc.ReplicationFactor,
@@ -95,6 +107,11 @@ func ApplyClusterChanges(config *model.ClusterConfig, currentStatus *model.Clust
 			}
 			newStatus.ServerIdx = serverIdx
 			continue
+		}
+		if existing {
+			for id, sm := range old.Shards {
+				nss.Shards[id] = sm.Clone()
+			}
 		}
 		newStatus.Namespaces[nc.Name] = nss
 
